@@ -7,7 +7,7 @@ import shutil
 import subprocess
 import sys
 
-SV = "/tmp/sv"
+SV = f"/tmp/sv_{os.getpid()}"      # one scratch worktree per run: two runs at a time must not share it
 PY = "/venv/bin/python"
 
 
@@ -54,6 +54,8 @@ def main():
         bad += not ok
     sh("git checkout -q -- . && git clean -fdq", cwd=SV)
     sh(f"git -C /repo worktree remove --force {SV}")
+    # (the summary line is what to look at: filtering the per-seed lines by 'CONFIRMED' also hides 'NOT CONFIRMED')
+    print(f"SUMMARY: {bad} seed(s) need attention" if bad else "SUMMARY: every seed applies, passes the tests, and its demonstration exits 0 on the clean tree and non-zero with the change")
     return 1 if bad else 0
 
 
